@@ -10,6 +10,7 @@ import PfVerif.Driver.Grad
 import PfVerif.Driver.Stoch
 import PfVerif.Driver.BSDual
 import PfVerif.Driver.Heap
+import PfVerif.Driver.Engine
 namespace PfVerif.Driver
 open Lean
 
@@ -45,6 +46,8 @@ def dispatch (op : String) (j : Json) : R Json :=
   | "gen" => opGen j
   | "bs_dual" => opBsDual j
   | "heap" => opHeap j
+  | "antithetic" => opAntithetic j
+  | "sobol_bm" => opSobolBm j
   | _ => .error s!"unknown op {op}"
 
 end PfVerif.Driver
